@@ -178,6 +178,17 @@ class ParserRaised(Exception):
     pass
 
 
+_junk = []
+
+
+def _junk_results():
+    if not _junk:
+        from depccg.cat import Category
+        from depccg.types import CombinatorResult
+        _junk.extend(CombinatorResult(Category.parse('G%d' % i), 'junk', '<junk>', True) for i in range(70000))
+    return _junk
+
+
 def run_instance(h, g, n, tag8, dep8, cfg, eid):
     """cfg: pen8, k, prune, usebeta, b16, maxstep.  Returns (event, meta)."""
     from depccg.types import Token, ScoringResult
@@ -191,9 +202,31 @@ def run_instance(h, g, n, tag8, dep8, cfg, eid):
     kw = dict(unary_penalty=cfg['pen8'] / 8.0, beta=beta, use_beta=cfg['usebeta'], pruning_size=cfg['prune'],
               nbest=cfg['k'], max_step=cfg['maxstep'], max_length=250)
     decoy = cfg.get('decoy')
-    cfg = {k: v for k, v in cfg.items() if k != 'decoy'}
+    big = cfg.get('bigtable')
+    cfg = {k: v for k, v in cfg.items() if k not in ('decoy', 'bigtable')}
     try:
-        if decoy:
+        if big:
+            # the sentence is parsed second in a call whose first sentence makes the grammar return 70 000 categories outside
+            # the inventory for one pair (the private category table of the call grows past 2^16 entries)
+            junk = _junk_results()
+            a0, b0 = lex[0], lex[-1]
+            gb = g['bin']
+
+            def bigbin(x, y):
+                rs = gb(x, y)
+                return rs + junk if (x == a0 and y == b0) else rs
+            btag = np.full((2, K), -4096.0, dtype=np.float32)
+            btag[0, 0] = 0.0
+            btag[1, K - 1] = 0.0
+            bsc = ScoringResult(btag, np.zeros((2, 3), dtype=np.float32))
+            btoks = [Token.of_word('big0'), Token.of_word('big1')]
+            h.rt.pops_clear()
+            allres = h.parsing.run([btoks, toks], [bsc, ScoringResult(tag.copy(), dep.copy())], list(lex), list(g['roots']), bigbin, g['un'], **kw)
+            res = allres[1] if len(allres) == 2 else []
+            pops = []
+            decoy = ('a sentence for which the grammar returns 70000 new categories',)
+            cfg = dict(cfg, maxstep=10 ** 7)
+        elif decoy:
             # the sentence is the second one of a call: another sentence (same grammar, same options) is parsed before it in
             # the same call.  The pops of the first sentence are counted on a call of its own (searches are deterministic).
             dn, dtag8, ddep8 = decoy[:3]
@@ -299,6 +332,15 @@ def make_specs(prop, tier, rng):
         style = rng.choice(['ties', 'small', 'wide', 'wide'])
         tag8, dep8 = make_scores(rng, n, len(g['lex']), style)
         cfg = rand_cfg(rng, prop)
+        if prop == 'C09' and g['kind'].startswith('synthetic') and rng.random() < 0.15:
+            # C09 speaks of every grammar: a unary rule that returns its argument (each application costs the penalty).  The
+            # derivations are then infinitely many, so the step budget is kept small; only the clauses of C09 are meaningful.
+            from depccg.types import CombinatorResult
+            xid = rng.choice(g['allc'])
+            g['U'][xid] = g['U'].get(xid, []) + [CombinatorResult(xid, 'uid', '<uid>', True)]
+            cfg['maxstep'] = 2000
+            cfg['pen8'] = rng.choice([1, 4, 8])
+            cfg['k'] = rng.choice([2, 3, 5])
         if prop == 'C16' or rng.random() < 0.2:
             # adversarial rows: scores clustered around the beta threshold, ties at the pruning boundary, flattened entries
             for i in range(n):
@@ -315,7 +357,9 @@ def make_specs(prop, tier, rng):
                     tag8[i] = [(v if j == keep or rng.random() < 0.3 else -32768) for j, v in enumerate(tag8[i])]
                     if rng.random() < 0.25:
                         tag8[i] = [-32768] * len(tag8[i])      # a row the category dictionary flattened entirely
-        if rng.random() < 0.25:
+        if prop == 'C02' and g['kind'].startswith('synthetic') and len(specs) % 75 == 7:
+            cfg = dict(cfg, bigtable=True)
+        elif rng.random() < 0.25:
             dn = rng.choice([1, 2, 3])
             dt, dd = make_scores(rng, dn, len(g['lex']), 'small')
             cfg = dict(cfg, decoy=(dn, dt, dd, rng.choice([0, 0, 1, 2]), rng.choice([0, 1])))
@@ -326,7 +370,7 @@ def make_specs(prop, tier, rng):
 def hang_event(spec, eid):
     g, n, tag8, dep8, cfg = spec
     return {'grammar': g['kind'], 'N': n, 'lexicon': [str(c) for c in g['lex']], 'categories': [str(c) for c in g['allc']], 'roots': [str(c) for c in g['roots']],
-            'tag_x8': tag8, 'dep_x8': dep8, 'config': {k: v for k, v in cfg.items() if k != 'decoy'}, 'second_sentence_of_a_call_after': cfg.get('decoy'),
+            'tag_x8': tag8, 'dep_x8': dep8, 'config': {k: v for k, v in cfg.items() if k not in ('decoy', 'bigtable')}, 'second_sentence_of_a_call_after': cfg.get('decoy') or cfg.get('bigtable'),
             'failed': None, 'pops': None, 'result': 'SEARCH DID NOT TERMINATE'}
 
 
